@@ -347,6 +347,44 @@ def check_margin(repo, rep):
     rep.floor(rid5, 6)
 
 
+def check_margin_twins(repo, rep):
+    rid = "C03-R4t"
+    rep.rule(rid, "two resting non-reduce-only orders with identical (qty, price) on the same side: executing or cancelling one of them "
+                  "releases exactly one reservation row, the twin's reservation stays")
+    sides = {"buy": W.enum_value(repo, "sides", "BUY"), "sell": W.enum_value(repo, "sides", "SELL")}
+    limit = W.enum_value(repo, "order_types", "LIMIT")
+    dna_mod, dna_cls = repo.module(DNA), repo.cls(DNA, "DynamicNumpyArray")
+    smp = {"q": F(2), "p": F(10), "Wt": F(1000), "lev": F(2), "f": F(1, 100), "a0": F(0)}
+    for side in ("buy", "sell"):
+        for op in ("execute", "cancel"):
+            def mk(dec):
+                it = Interp(repo, stubs=W.base_stubs(), samples=[dict(smp)], nonneg=set(smp), decisions=dec)
+                qty = A("q") if side == "buy" else -A("q")
+
+                def table(rows):
+                    t = it.instantiate(ClassV(dna_cls, dna_mod), [(num(10), num(2))], {})
+                    for r in rows:
+                        it.call(it.getattr(t, "append"), [Arr(list(r))], {})
+                    return t
+                twins = [(qty, A("p")), (qty, A("p"))]
+                ex = W.obj_of(repo, FUT, "FuturesExchange", "exchange", {
+                    "name": "Sandbox", "type": "futures", "fee_rate": A("f"), "settlement_currency": "USDT",
+                    "assets": {"BTC": num(0), "USDT": A("Wt")}, "available_assets": {"BTC": A("a0"), "USDT": A("Wt")},
+                    "buy_orders": {"BTC": table(twins if side == "buy" else [])}, "sell_orders": {"BTC": table(twins if side == "sell" else [])},
+                    "futures_leverage": A("lev"), "futures_leverage_mode": "cross"})
+                o = W.make_order(repo, "O", sides[side], limit, qty, A("p"), reduce_only=False, symbol=SYM)
+                it.ex = ex
+                return it, lambda it: it.call(it.getattr(ex, HANDLER[op]), [o], {})
+            for out in explore(mk, 16):
+                rows = table_rows(out.interp, out.interp.ex, side) if out.kind == "return" else None
+                qty_ = A("q") if side == "buy" else -A("q")
+                if rows is None or not rows_same(rows, [(qty_, A("p"))]):
+                    rep.violation(rid, f"twins|{op}|{side}", f"{HANDLER[op]} of one of two identical resting {side} orders leaves reservation rows {rows if rows is not None else out.value} "
+                                                              f"(expected exactly the twin's row)")
+                rep.instance(rid, f"{op}|{side}", {"rows_left": repr(rows)})
+    rep.floor(rid, 4)
+
+
 def check_margin_multi(repo, rep):
     rid5 = "C03-R5"
     rep.rule("C03-R5m", "available_margin with several symbols sharing one wallet: the open-position cost and the resting-order "
@@ -429,8 +467,12 @@ def run(repo: Repo, rep, tier: str):
     rep.guarded(check_fills, repo, rep)
     rep.guarded(check_qty_update, repo, rep)
     rep.guarded(check_fee, repo, rep)
+    from props.c04 import check_update_qty_decimal
+    rep.rule("C03-R3d", "position size arithmetic uses the exact-decimal helpers consistently with the closing test (no binary float += / -)")
+    rep.guarded(check_update_qty_decimal, repo, rep, "C03-R3d")
     rep.guarded(check_margin, repo, rep)
     rep.guarded(check_margin_multi, repo, rep)
+    rep.guarded(check_margin_twins, repo, rep)
     rep.undecided_item("interaction of more than two symbols (the available-margin formula is decided for one and two traded assets)")
     rep.undecided_item("float drift in row matching of the reservation tables")
 
